@@ -53,7 +53,7 @@ func caseVariant(s string, rng interface{ Intn(int) int }) string {
 }
 
 func TestVerifC02(t *testing.T) {
-	rep := newVerifReport("C02", "real login flow (session cookie, and Authorization: Basic on the issuing request itself with the name as typed) for generated user names (case variants, dots, dashes, plus, 64 chars) x key types x cert types x configurations (Kerberos realm, Ed25519 CA, extension templates); every returned certificate decoded independently: principal/CN = normalised authenticated name, key = submitted key, end-entity user cert, verifies under published CA, SSH extensions = 5 standard + expanded configured; cross-user targets must be refused; class = (config, name shape, key type, cert type, outcome)")
+	rep := newVerifReport("C02", "real login flow (session cookie, and Authorization: Basic on the issuing request itself with the name as typed) for generated user names (case variants, dots, dashes, plus, 64 chars) x key types x cert types x configurations (Kerberos realm, Ed25519 CA, extension templates, public-keys files that pre-list one of the own CA keys); every returned certificate decoded independently: principal/CN = normalised authenticated name, key = submitted key, end-entity user cert, verifies under published CA, SSH extensions = 5 standard + expanded configured; cross-user targets must be refused; class = (config, name shape, key type, cert type, outcome)")
 	defer rep.Finish()
 	rng := verifRand("c02")
 	nUsers := 14
@@ -82,6 +82,10 @@ func TestVerifC02(t *testing.T) {
 		{"plain", verifStateOpts{}, nil},
 		{"realm+ed25519+ext", verifStateOpts{KerberosRealm: "VERIF.TEST", Ed25519: true, ExtraBase: extYAML(extA)}, extA},
 		{"ecdsa-ca", verifStateOpts{CAKey: "ca_ec256", Ed25519: true}, nil},
+		// an operator's public-keys file that already lists one of the daemon's own CA keys: every CA key that signs
+		// must still be published
+		{"ed25519+keys-file-lists-primary", verifStateOpts{Ed25519: true, PublicKeysFile: true, PublicKeysList: []string{"ca_rsa2048"}}, nil},
+		{"ed25519+keys-file-lists-ed25519", verifStateOpts{Ed25519: true, PublicKeysFile: true, PublicKeysList: []string{"ca_ed25519", "foreign_rsa2048"}}, nil},
 	}
 	keys := verifAllUserKeys()
 	for _, c := range cfgs {
